@@ -2,22 +2,45 @@ import contextlib
 import signal
 from . import ConductorAbort
 
+# Set once SIGINT/SIGTERM has been received, and never cleared: an abort that is
+# under way must not be cut short by further signals (e.g., a second Ctrl-C
+# while we are still terminating the running tasks). It also lets us raise the
+# abort again if it got lost: an exception raised by a signal handler surfaces
+# wherever the main thread happens to be, and Python discards it in some places
+# (e.g., inside a `__del__` method). See `raise_if_abort_requested()`.
+_abort_requested = False
+
 # See `defer_abort()`.
 _deferring_abort = False
-_abort_requested = False
 
 
 def register_signal_handlers():
+    global _abort_requested, _deferring_abort  # pylint: disable=global-statement
+    _abort_requested = False
+    _deferring_abort = False
     signal.signal(signal.SIGINT, _terminate_handler)
     signal.signal(signal.SIGTERM, _terminate_handler)
 
 
 def _terminate_handler(sig, frame):
     global _abort_requested  # pylint: disable=global-statement
-    if _deferring_abort:
+    if _abort_requested or _deferring_abort:
+        # Either the abort is postponed (see `defer_abort()`) or we are already
+        # aborting.
         _abort_requested = True
         return
+    _abort_requested = True
     raise ConductorAbort()
+
+
+def raise_if_abort_requested():
+    """
+    Raises `ConductorAbort` if SIGINT/SIGTERM was received earlier. Long-running
+    loops call this regularly so that an abort that got lost where the signal
+    handler raised it (see above) still takes effect.
+    """
+    if _abort_requested and not _deferring_abort:
+        raise ConductorAbort()
 
 
 @contextlib.contextmanager
@@ -29,12 +52,11 @@ def defer_abort():
     but before `Popen()` returns, nobody would know about the new process and
     it would be left running).
     """
-    global _deferring_abort, _abort_requested  # pylint: disable=global-statement
+    global _deferring_abort  # pylint: disable=global-statement
     _deferring_abort = True
     try:
         yield
     finally:
         _deferring_abort = False
         if _abort_requested:
-            _abort_requested = False
             raise ConductorAbort()
